@@ -1,8 +1,13 @@
 // Native replay for C13: compiled by g++ against the REAL sources (no shadow, no stubs) with
 // -fsanitize=address,undefined.  Build: -DCV_W=<8|16|32|64> -DCV_GROUPED=<0|1> -DCV_SRC="<real .cpp>"
-// argv: kind value n0 gchar        kind in {strlen, convert, utos, negtos, itos}
+// argv: kind value n0 gchar        kind in {strlen, convert, utos, negtos, itos, dutos, ditos (through int2string.hpp)}
 // Evaluates the postcondition of the contract with an independent oracle (snprintf + grouping).
 #include CV_SRC
+#if !CV_GROUPED
+#include "celma/format/int2string.hpp"   // public dispatch header (kinds dutos / ditos)
+#else
+#include "celma/format/grouped_int2string.hpp"
+#endif
 #include <cstdio>
 #include <cstdlib>
 #include <cstring>
@@ -45,6 +50,7 @@ int main(int argc, char** argv) {
     if (memcmp(b, full.data(), L) != 0) { std::string got(b, L); return fail("convert", full, got.c_str(), 0); }
     free(b);
   } else {
+    bool disp = (kind == "dutos" || kind == "ditos"); if (disp) kind = kind.substr(1);
     bool neg = (kind == "negtos") || (kind == "itos" && sv < 0);
     unsigned long long a = neg ? (unsigned long long)(UT)(0 - (UT)sv) : (kind == "utos" ? (unsigned long long)(UT)uv : (unsigned long long)(UT)sv);
     if (kind == "negtos" && (ST)sv >= 0) { printf("NOT-REPRODUCED: precondition value < 0 violated\n"); return 0; }
@@ -53,11 +59,13 @@ int main(int argc, char** argv) {
     memset(b, 0x55, e.size() + 1);
     int r;
 #if CV_GROUPED
-    if (kind == "utos") r = CAT(groupedUint, CV_W, toString)(b, (UT)uv, g);
+    if (disp) r = (kind == "utos") ? celma::format::grouped_int2string(b, (UT)uv, g) : celma::format::grouped_int2string(b, (ST)sv, g);
+    else if (kind == "utos") r = CAT(groupedUint, CV_W, toString)(b, (UT)uv, g);
     else if (kind == "negtos") r = CAT(groupedInt, CV_W, negToString)(b, (ST)sv, g);
     else r = CAT(groupedInt, CV_W, toString)(b, (ST)sv, g);
 #else
-    if (kind == "utos") r = CAT(uint, CV_W, toString)(b, (UT)uv);
+    if (disp) r = (kind == "utos") ? celma::format::int2string(b, (UT)uv) : celma::format::int2string(b, (ST)sv);
+    else if (kind == "utos") r = CAT(uint, CV_W, toString)(b, (UT)uv);
     else if (kind == "negtos") r = CAT(int, CV_W, negToString)(b, (ST)sv);
     else r = CAT(int, CV_W, toString)(b, (ST)sv);
 #endif
@@ -65,11 +73,13 @@ int main(int argc, char** argv) {
     // std::string variant of the same function must agree
     std::string s;
 #if CV_GROUPED
-    if (kind == "utos") s = CAT(groupedUint, CV_W, toString)((UT)uv, g);
+    if (disp) s = (kind == "utos") ? celma::format::grouped_int2string((UT)uv, g) : celma::format::grouped_int2string((ST)sv, g);
+    else if (kind == "utos") s = CAT(groupedUint, CV_W, toString)((UT)uv, g);
     else if (kind == "negtos") s = CAT(groupedInt, CV_W, negToString)((ST)sv, g);
     else s = CAT(groupedInt, CV_W, toString)((ST)sv, g);
 #else
-    if (kind == "utos") s = CAT(uint, CV_W, toString)((UT)uv);
+    if (disp) s = (kind == "utos") ? celma::format::int2string((UT)uv) : celma::format::int2string((ST)sv);
+    else if (kind == "utos") s = CAT(uint, CV_W, toString)((UT)uv);
     else if (kind == "negtos") s = CAT(int, CV_W, negToString)((ST)sv);
     else s = CAT(int, CV_W, toString)((ST)sv);
 #endif
